@@ -215,7 +215,7 @@ pub fn run(ctx: &Ctx) -> Report {
         "sequences/raw", "sequences/master_filtered", "sequences/bursts", "sequences/one_at_a_time", "sequences/with_interleaved_traffic",
         "ids_accounted", "convergence/hashes_checked", "convergence/cluster_by_id_checked", "convergence/dump_checked", "convergence/backend_table_checked",
         "listener_probes/active", "listener_probes/active_served", "listener_probes/refused_as_expected", "route_probes", "route_probes/landed_on_backend_of_cluster",
-        "c07_failure_checked", "closing/SoftStop/exited", "backpressure/episodes", "backpressure/padded_commands", "https_route_probes", "https_route_probes/landed_on_backend_of_cluster", "udp_probes", "udp_probes/relayed_to_backend_of_cluster", "tcp_route_probes/relayed_to_backend_of_cluster", "closing/soft_stop_event_logs_checked", "bursts",
+        "c07_failure_checked", "closing/SoftStop/exited", "backpressure/episodes", "backpressure/padded_commands", "sequences/small_command_buffers", "https_route_probes", "https_route_probes/landed_on_backend_of_cluster", "udp_probes", "udp_probes/relayed_to_backend_of_cluster", "tcp_route_probes/relayed_to_backend_of_cluster", "closing/soft_stop_event_logs_checked", "bursts",
         "pattern/listener:add-activate-deactivate-reactivate", "pattern/listener:remove-while-active", "pattern/listener:add-remove-never-activated",
         "pattern/backend:same-id-two-addresses", "pattern/backend:same-address-two-ids", "pattern/cluster:remove-with-frontends-and-backends-left",
         "pattern/frontend:added-before-its-listener",
@@ -237,13 +237,64 @@ pub fn run(ctx: &Ctx) -> Report {
     // cells mostly wait (sockets, timers): run more cells than cores; keep part of the budget for
     // minimising the witnesses
     let mut phase1 = ctx.clone();
-    phase1.threads = ctx.opt_u64("cells", (ctx.threads as u64 * 4).min(64)) as usize;
+    // cells mostly wait, so a few per CPU is fine; more than that and they starve each other
+    phase1.threads = ctx.opt_u64("cells", (ctx.threads as u64 * 2).clamp(2, 48)) as usize;
     phase1.budget = ctx.budget.mul_f64(ctx.tier.pick(0.5, 0.85));
     par_cases(&phase1, &mut rep, n, |i, r| run_case(&phase1, i, r));
+    confirm_in_isolation(ctx, &mut rep);
     if ctx.opt_u64("shrink", 1) == 1 {
         minimise_witnesses(ctx, &mut rep);
     }
     rep
+}
+
+/// A violation whose signature is not a registered known finding counts only if one of its
+/// witnesses reproduces when its case is re-executed alone (nothing else running in this process).
+/// Otherwise it is withdrawn and counted as inconclusive.
+fn confirm_in_isolation(ctx: &Ctx, rep: &mut Report) {
+    let known: std::collections::BTreeSet<String> = std::fs::read_to_string(ctx.root.join("known_findings.json"))
+        .ok()
+        .and_then(|t| serde_json::from_str::<Value>(&t).ok())
+        .and_then(|v| v["findings"].as_array().cloned())
+        .unwrap_or_default()
+        .iter()
+        .filter(|f| f["property"].as_str() == Some(ctx.prop.as_str()) && f["status"].as_str() == Some("known"))
+        .filter_map(|f| f["signature"].as_str().map(|s| s.to_owned()))
+        .collect();
+    let max_len = ctx.opt_u64("max_len", 200) as usize;
+    let mut sigs: Vec<String> = rep.violations.iter().map(|v| v.signature.clone()).filter(|s| !known.contains(s)).collect();
+    sigs.sort();
+    sigs.dedup();
+    for sig in sigs {
+        rep.obs("violations_rechecked_in_isolation", 1);
+        let cases: Vec<u64> = rep.violations.iter().filter(|v| v.signature == sig).filter_map(|v| v.witness["case"].as_u64()).collect();
+        let mut confirmed = false;
+        let out_of_time = ctx.started.elapsed() > ctx.budget.mul_f64(ctx.tier.pick(3.0, 1.3));
+        for case in cases {
+            if out_of_time {
+                break;
+            }
+            let mut rng = Rng::for_case(ctx.seed, 8, case);
+            let plan = generate(&mut rng, Cell { ip: lab::fresh_ip() }, max_len);
+            let again = crate::common::guard(|| run_plan(&plan));
+            if matches!(&again, Ok(out) if out.has(&sig)) {
+                confirmed = true;
+                break;
+            }
+        }
+        if confirmed {
+            rep.obs("violations_confirmed_in_isolation", 1);
+        } else {
+            rep.violations.retain(|v| v.signature != sig);
+            rep.observed.remove(&format!("violation:{sig}"));
+            rep.obs("violations_withdrawn_not_reproduced_in_isolation", 1);
+            rep.inconclusive(&if out_of_time {
+                format!("{sig}: seen once, but no time was left to re-execute its case alone")
+            } else {
+                format!("{sig}: seen under load, not reproduced when its case was re-executed alone")
+            });
+        }
+    }
 }
 
 /// phase 2: for each signature, re-generate the shortest witness's plan and minimise it
